@@ -271,3 +271,141 @@ func (g *gen) histCrash(o crashOpts) {
 	g.images += len(jobs)
 	os.RemoveAll(dir)
 }
+
+// histCrashCont (C10, C09): the history goes on after the crash.  A workload
+// runs; one file-mutation point (possibly with the write torn) is chosen; the
+// directory as it was at that point becomes the database; the real Open
+// recovers it ("crashopen" event with a full observation), more transactions
+// are committed - among them one that does not fit into the active segment,
+// so that whatever the crash left at its tail is sealed into a file that is
+// no longer the last one - and the database is closed and reopened again.
+func (g *gen) histCrashCont(kinds []string) {
+	hasDS := false
+	for _, k := range kinds {
+		hasDS = hasDS || k != "kv"
+	}
+	mode := nutsdb.HintKeyValAndRAMIdxMode
+	if !hasDS {
+		mode = modeOf(g.c.Mode, g.r)
+	}
+	g.u = dsUniverse(true)
+	if !hasDS {
+		g.u = &hx.Universe{KvBuckets: []string{"b1", "b2"}}
+	}
+	seg := int64(192 + g.r.Intn(4)*96)
+	dir := fmt.Sprintf("%s/db-%d", g.c.Tmp, g.hist)
+	os.RemoveAll(dir)
+	obs := hx.NewFSObs(dir)
+	rec := g.s.R
+	rec.Hold = true
+	obs.MarkFn = rec.HeldLen
+	g.newSess(dir, mode, rwOf(g.c.RW, g.r), seg)
+	g.s.R.Emit(hx.Ev{"op": "reset", "mode": int(mode), "rw": int(g.s.Opt.RWMode), "seg": seg, "hist": g.hist,
+		"sync": g.s.Opt.SyncEnable, "load": int(g.s.Opt.StartFileLoadingMode), "family": g.c.Family})
+	if err := g.s.OpenFirst(); err != nil {
+		fmt.Fprintln(os.Stderr, "harness: first open failed:", err)
+		os.Exit(2)
+	}
+	n := 3 + g.r.Intn(g.c.Steps)
+	for i := 0; i < n; i++ {
+		nops := 1 + g.r.Intn(4)
+		g.update(func(t *hx.Tx) {
+			for j := 0; j < nops; j++ {
+				g.mutOne(t, kinds)
+			}
+		})
+		if g.s.Panics > 0 {
+			break
+		}
+	}
+	g.s.Close()
+	obs.Uninstall()
+	held := rec.TakeHeld()
+	muts := obs.Muts
+	// choose the crash point among the writes (and their torn variants) and the other mutations
+	var cands []hx.ImgSpec
+	for k := 1; k <= len(muts); k++ {
+		cands = append(cands, hx.ImgSpec{K: k, Torn: -1})
+		if k < len(muts) && muts[k].Op == "write" {
+			for _, p := range hx.TornPoints(&muts[k], true) {
+				cands = append(cands, hx.ImgSpec{K: k, Torn: p}, hx.ImgSpec{K: k, Torn: p}) // torn tails are the interesting ones
+			}
+		}
+	}
+	spec := cands[g.r.Intn(len(cands))]
+	mark := len(held)
+	if spec.K < len(muts) {
+		mark = muts[spec.K].Mark
+	} else if spec.Torn < 0 && spec.K == len(muts) {
+		mark = muts[spec.K-1].Mark + 1
+	}
+	if spec.Torn < 0 && spec.K < len(muts) && spec.K > 0 && muts[spec.K-1].Mark < mark {
+		// the image lies between two calls: every call before `mark` has returned
+	}
+	if mark > len(held) {
+		mark = len(held)
+	}
+	// the calls that had returned (a call in progress at the crash is dropped:
+	// if it is a Commit, its transaction is the in-flight one)
+	for _, e := range held[:mark] {
+		rec.Emit(e)
+	}
+	// drop a trailing "close": the process died, it did not close the database
+	dir2 := dir + "-crashed"
+	if err := hx.WriteImage(obs.BuildImage(spec), dir2, nil); err != nil {
+		fmt.Fprintln(os.Stderr, "harness: cannot write image:", err)
+		os.Exit(2)
+	}
+	os.RemoveAll(dir)
+	g.s.Opt.Dir = dir2
+	e := hx.Ev{"op": "crashopen", "k": spec.K, "torn": spec.Torn, "err": false, "o": emptyObs, "t0": rec.Now()}
+	func() {
+		defer func() {
+			if r := recover(); r != nil {
+				e["panic"] = fmt.Sprint(r)
+				e["err"] = true
+				g.s.Panics++
+			}
+		}()
+		db, err := nutsdb.Open(g.s.Opt)
+		if err != nil {
+			e["err"], e["msg"] = true, err.Error()
+			return
+		}
+		g.s.DB = db
+		if o, oerr := hx.ObserveDB(db, g.u); oerr == nil {
+			e["o"] = o
+		} else {
+			e["panic"] = oerr.Error()
+		}
+	}()
+	e["t1"] = rec.Now()
+	rec.Emit(e)
+	if e["err"] == true || g.s.Panics > 0 {
+		os.RemoveAll(dir2)
+		return
+	}
+	// life goes on: small commits, one that needs a new segment, more small ones
+	big := make([]byte, seg-60)
+	for i := range big {
+		big[i] = 'y'
+	}
+	for i := 0; i < 6; i++ {
+		g.update(func(t *hx.Tx) {
+			if i == 1+g.hist%3 {
+				t.Put("b1", []byte("kz"), big, 0)
+			} else {
+				g.mutOne(t, kinds)
+			}
+		})
+	}
+	g.view(func(t *hx.Tx) { g.readSome(t, kinds, true) })
+	g.s.Obs()
+	g.s.Shadow(dir2 + "-shadow")
+	if g.reopenCompare(kinds) {
+		g.s.Obs()
+		g.s.Close()
+	}
+	os.RemoveAll(dir2)
+	g.images++
+}
